@@ -99,6 +99,8 @@ def _lookup(ex, st, fr, ins, name, argv, on_hit, on_miss):
         return None
     key = ex.load(st, kp, tb['key_ty'])
     st.events.append(('lookup', tb['name'], key))
+    if isinstance(key, tm.T) and key.id in st.pinned:
+        key = st.pinned[key.id]
     if tm.is_ic(key):
         for k, rid in tb['entries']:
             if k == key.args[0]:
